@@ -192,6 +192,47 @@ theorem C21_serves_full_false : ¬ C21_serves_full := by
   rw [f19_build_repaired] at hs
   cases hs
 
+example : zoneSizesOf f19Eps = [1, 3] ∧ canBalance (zoneSizesOf f19Eps) 4 = false := by decide
+
+/-- … and holds exactly when the zones of the selected nodes can be balanced: a shard whose
+    nodes (each with at least one section) have endpoints-per-zone counts that can take `rf`
+    balanced replicas is served.  With zone awareness every zone contributes the same number of
+    nodes, which can always be balanced (`canBalance_equal`). -/
+theorem C21_serves_partial (sub : List Ep) (rf : Nat) (hh : ∀ e ∈ sub, e.hashes ≠ []) (hb : rf < 2 ^ 63 - 1)
+    (hle : rf ≤ sub.length) (hcan : canBalance (zoneSizesOf sub) rf = true) :
+    ∃ secs, build true sub rf = .ring secs :=
+  (C19_build_stuck_iff sub rf hh hb).2.mpr ⟨hle, hcan⟩
+
+/-- the tenant is refused with the zone error exactly when its nodes' zones cannot be balanced -/
+theorem C21_stuck_iff (sub : List Ep) (rf : Nat) (hh : ∀ e ∈ sub, e.hashes ≠ []) (hb : rf < 2 ^ 63 - 1) :
+    build true sub rf = .stuck ↔ rf ≤ sub.length ∧ canBalance (zoneSizesOf sub) rf = false :=
+  (C19_build_stuck_iff sub rf hh hb).1
+
+theorem listMin_replicate (k : Nat) : ∀ n, 0 < n → listMin (List.replicate n k) = k
+  | 1, _ => rfl
+  | n + 2, _ => by
+    have := listMin_replicate k (n + 1) (by omega)
+    simp only [List.replicate_succ] at this ⊢
+    simp only [listMin, this]
+    omega
+
+/-- equal zone sizes can take as many replicas as there are nodes: the sub-ring of a zone aware
+    shard (k nodes from each of n zones) serves every `rf ≤ k·n` -/
+theorem sum_replicate_nat (k : Nat) : ∀ n, (List.replicate n k).sum = k * n
+  | 0 => by simp
+  | n + 1 => by simp [List.replicate_succ, sum_replicate_nat k n, Nat.mul_succ]; omega
+
+theorem canBalance_equal (k n rf : Nat) (h : rf ≤ k * n) : canBalance (List.replicate n k) rf = true := by
+  unfold canBalance
+  by_cases hn : n ≤ 1
+  · simp only [List.length_replicate, hn, if_true, decide_eq_true_eq, sum_replicate_nat]
+    exact h
+  · simp only [List.length_replicate, hn, if_false, decide_eq_true_eq]
+    rw [listMin_replicate k n (by omega)]
+    have : (List.replicate n k).map (fun s => min s (k + 1)) = List.replicate n k := by
+      rw [List.map_replicate]; congr 1; omega
+    rw [this, sum_replicate_nat]; exact h
+
 /-! ### the LRU cache -/
 
 /-- every cached value is what `compute` answers -/
